@@ -62,3 +62,12 @@ Proof.
   intros Hx Hy. unfold euclid_q. rewrite Z.sgn_pos by assumption. rewrite Z.abs_eq by lia.
   rewrite Z.mul_1_l. apply Z.div_pos; lia.
 Qed.
+
+Lemma euclid_q_le x y : 0 <= x -> 0 < y -> euclid_q x y <= x.
+Proof.
+  intros Hx Hy. unfold euclid_q. rewrite Z.sgn_pos by assumption. rewrite Z.abs_eq by lia. rewrite Z.mul_1_l.
+  apply Z.div_le_upper_bound; [assumption|]. nia.
+Qed.
+
+Lemma euclid_r_le x y : 0 <= x -> 0 < y -> euclid_r x y <= x.
+Proof. intros Hx Hy. unfold euclid_r. rewrite Z.abs_eq by lia. apply Z.mod_le; assumption. Qed.
